@@ -13,7 +13,7 @@ TECH = "contract-based deductive verification: weakest-precondition VCs generate
 CHECKS = {
     "C01": (True,
             "Per-operation spend contracts over the ghost tables spent/pending, proved for all inputs: Swap and MeltTokens succeed only on inputs that were neither spent nor pending before and are pairwise distinct by Y (duplicates keyed on the secret), leave them spent (swap, paid melt) or locked (pending melt); spent only grows in every operation (frame); inputs of a melt are released only on the definitive-failure answers of C05; ProofsStateCheck reports the table contents; the invariant `no Y is both pending and spent` is preserved by every operation. RELY/GUARANTEE TIER (schedules at store/Lightning-call granularity): Swap and MeltTokens are verified a second time with the ghost store changing arbitrarily - within the declared rely clauses (spent proofs stay spent with their row, no step makes a proof both locked and spent, signatures stay) - before every MintDB / Lightning call; every such call of the verified function is itself proved to be a step the rely allows (guarantee obligations, ~80 discharged); a successful swap has its inputs spent under every interleaving. Three guarantee obligations FAIL and are listed as known findings: SaveProofs in Swap, AddPendingProofs and SaveProofs in MeltTokens can make a proof both locked and spent (check-then-act race, double spend shown by a deterministic interleaving replay).",
-            "Sequential histories only (interleavings are not claimed: check-then-act windows across separate transactions are outside this technique). Assumed: storage.MintDB contracts (atomic insert-if-absent of SaveProofs/AddPendingProofs; kept honest by a bounded conformance harness when present), A-META, hash_to_curve as an uninterpreted function Yof(secret). Rely/guarantee tier: callees that themselves talk to the store are abstracted by a yield plus their own rg postconditions; atomicity of one MintDB call is A-DB; only the listed rely clauses constrain the other requests.",
+            "Sequential histories (induction over per-operation contracts) plus the rely/guarantee tier for interleavings at store/Lightning-call granularity of Swap and MeltTokens; the check-then-act windows the tier finds are open known findings (they are violations, not proofs); interleavings with operations outside the tier are an assumption (A-RG). Assumed: storage.MintDB contracts (atomic insert-if-absent of SaveProofs/AddPendingProofs; kept honest by the bounded conformance harness bounded/dbconf), A-META, hash_to_curve as an uninterpreted function Yof(secret). Rely/guarantee tier: callees that themselves talk to the store are abstracted by a yield plus their own rg postconditions; atomicity of one MintDB call is A-DB; only the listed rely clauses constrain the other requests.",
             "DESIGN.md §8 C01"),
     "C02": (True,
             "The four per-operation inequalities of the statement proved in mathematical integers incl. uint64 wrap-around: Swap (sum outputs + ceil(sum ppk/1000) <= sum inputs), MintTokens (sum outputs <= quote amount), MeltTokens (inputs >= amount + fee reserve + input fees at the point where inputs are locked, under the stored-row invariant), fee limit handed to SendPayment/PayPartialAmount <= stored fee reserve; internal settlement only for the mint quote of the same invoice and hence the same amount; MPP melts never internal.",
